@@ -270,6 +270,7 @@ def passes_mut_ref(F, fn, seen=None):
 def run(F, rep):
     judge(F, rep, "R08.12", "the list built-ins (list contains, count, append, concatenate, reverse, index of, union, distinct values, remove, insert before, sublist), folded through "
                             "their positional wrappers on small lists of symbolic items and literal positions, answer what the specification defines", CASES, "lists", 70)
+    run_named(F, rep)
     judge(F, rep, "R08.13", "the string built-ins (string length, substring, substring before / after, starts with, ends with, contains), folded through their positional wrappers on "
                             "literal texts (ASCII and non-ASCII) and literal positions, answer what the specification defines", STRING_CASES, "strings", 40)
 
@@ -308,3 +309,183 @@ def judge(F, rep, rule, text, table, family, floor):
         else:
             rep.ok(rid, key, "%d cases fold to the specified answer" % ok)
     rep.floor(rid, "%s: built-in cases folded to a definite answer" % family, decided, floor)
+
+
+# ====================================================================================================== R08.14: named = positional
+NAMED = "dmntk_feel_evaluator::bifs::named::"
+
+
+def static_text(F, path):
+    """the text of a lazy_static Name (the string literals of its initialiser, joined by a space)"""
+    for n, h in F.hir.items():
+        if n.startswith("<" + path + " as ") and n.endswith("__static_ref_initialize"):
+            return " ".join(x["v"] for x, _ in find_hir(h["body"], lambda q: q.get("k") == "Lit" and q.get("lit") == "str"))
+    return None
+
+
+def fold_named(F, fn, named_args):
+    """fold the named wrapper on the parameter map {name text: value}; names reach get_param / the map as lazy_static references"""
+    box = {}
+    base = {}
+
+    def lookup(key):
+        if isinstance(key, tuple) and key and key[0] == "def":
+            t = static_text(F, key[1])
+            if t is None:
+                return ("unknown", "name of %s" % key[1])
+            for i, (nm, val) in enumerate(named_args):
+                if nm == t:
+                    return ("v", "Some", [("tuple", [enc(val), ("lit", i + 1)])])
+            return ("v", "None", [])
+        return None
+
+    def hook(c, a, st):
+        c = c or ""
+        if c.endswith("::get_param") and len(a) == 2:
+            return lookup(a[1])
+        if "BTreeMap" in c and c.split("::")[-1] == "get" and len(a) == 2:
+            return lookup(a[1])
+        return base["hook"](c, a, st)
+    # reuse the positional hook set (Values, FeelNumber, equality)
+    res, note = None, ""
+    import hireval
+
+    class _Ev(Evaluator):
+        pass
+    # build an evaluator the same way fold() does, but entered at the named wrapper
+    saved = {}
+
+    def make():
+        def inner_hook(c, a, st):
+            return None
+        return inner_hook
+    ev_box = {}
+
+    def pos_hook(c, a, st):
+        ev = ev_box["ev"]
+        c = c or ""
+        if c.endswith("::evaluate_equals") and len(a) == 2:
+            x, y = dec(a[0]), dec(a[1])
+            return None if (x is UNKNOWN or y is UNKNOWN) else mk_bool(x == y)
+        seq = ev.as_seq(a[0]) if a else None
+        if c == VALUES + "new":
+            return ("array", list(seq)) if seq is not None else None
+        if c == VALUES + "as_vec":
+            return a[0]
+        if c == VALUES + "len" and seq is not None:
+            return ("lit", len(seq))
+        if c == VALUES + "is_empty" and seq is not None:
+            return mk_bool(not seq)
+        if c.startswith(VALUES) and c[len(VALUES):] in ("add", "reverse", "insert", "remove") and seq is not None:
+            m = c[len(VALUES):]
+            q = list(seq)
+            if m == "add":
+                q.append(a[1])
+            elif m == "reverse":
+                q.reverse()
+            elif a[1][0] != "lit" or not isinstance(a[1][1], int):
+                return ("unknown", "index")
+            elif m == "insert":
+                if not 0 <= a[1][1] <= len(q):
+                    return ("unknown", "panic")
+                q.insert(a[1][1], a[2])
+            else:
+                if not 0 <= a[1][1] < len(q):
+                    return ("unknown", "panic")
+                del q[a[1][1]]
+            return {"put": ("array", q), "val": ("unit",)}
+        if c.startswith(NUM) and a and a[0][0] == "lit" and isinstance(a[0][1], int) and not isinstance(a[0][1], bool):
+            m, n = c[len(NUM):], a[0][1]
+            if m == "is_positive":
+                return mk_bool(n > 0)
+            if m == "is_negative":
+                return mk_bool(n < 0)
+            if m == "abs":
+                return ("lit", abs(n))
+            if m in ("to_usize", "to_u64"):
+                return ("v", "Some", [("lit", n)]) if n >= 0 else ("v", "None", [])
+            if m in ("to_isize", "to_i64"):
+                return ("v", "Some", [("lit", n)])
+            if m in ("trunc", "floor", "ceiling", "clone"):
+                return ("lit", n)
+        if c in (NUM + "one", NUM + "zero") and not a:
+            return ("lit", 1 if c.endswith("one") else 0)
+        return None
+    base["hook"] = pos_hook
+    ev = Evaluator(F, call_hook=hook, ints=True, max_paths=300, inline={n for n in F.hir if (n.startswith(CORE) or n.startswith(NAMED)) and "{closure" not in n and not n.endswith("::get_param")})
+    ev.vecs = True
+    ev_box["ev"] = ev
+    try:
+        outs = ev.run_fn(NAMED + fn, [("v", "NamedParameters", [("sym", "the parameter map")])])
+    except (TooManyPaths, ValueError, KeyError, TypeError, IndexError, RecursionError) as x:
+        return None, "%s: %s" % (type(x).__name__, x)
+    out = []
+    for conds, v in outs:
+        if conds:
+            return None, "path condition left open: %s" % str(conds[0])[:60]
+        out.append(dec(v))
+    return out, ""
+
+
+def run_named(F, rep):
+    """R08.14: a named invocation answers what the positional invocation with the same arguments answers.  The named wrapper is folded with the parameter map answering each
+    requested name (the text of the lazy_static Name the wrapper asks for) with the value the specification's parameter of that name receives; the result must be the
+    specified answer of the positional case (R08.12 / R08.13 decide that the positional wrapper gives it)."""
+    import json
+    import os
+    rid = rep.rule("R08.14", "the named wrappers of the list and string built-ins, folded with every parameter answered by name, give the specified answer of the positional invocation with the same arguments")
+    sig = json.load(open(os.path.join(os.path.dirname(os.path.dirname(os.path.dirname(os.path.abspath(__file__)))), "tables", "bif_signatures.json")))
+    pinned = sig.get("repo_pinned", {})
+    decided = 0
+    by_fn = {}
+    for fn, args, want in CASES + STRING_CASES:
+        by_fn.setdefault(fn, []).append((args, want))
+    for fn, cases in sorted(by_fn.items()):
+        feel_name = fn[4:].replace("_", " ")
+        sigs = sig["signatures"].get(feel_name)
+        h = F.hir.get(NAMED + fn)
+        key = "named:%s" % fn[4:]
+        if not sigs or feel_name in sig.get("variadic_no_named_form", []):
+            continue
+        if h is None:
+            rep.undecided(rid, key, "no named wrapper %s" % fn)
+            continue
+        if passes_mut_ref(F, NAMED + fn):
+            rep.undecided(rid, key, "%s hands a `&mut` local to another function" % fn)
+            continue
+        names = [pinned.get(feel_name, {}).get(nm, nm) if False else nm for nm in sigs[0]]
+        repl = {v: k for k, v in pinned.get(feel_name, {}).items() if not k.startswith("_")}
+        bad, unknown, ok = [], [], 0
+        for args, want in cases[:12]:
+            nm_args = []
+            for i, val in enumerate(args):
+                nm = names[i]
+                nm_args.append((nm, val))
+            tried = [nm_args]
+            if repl:
+                tried.append([(repl.get(nm, nm), val) for nm, val in nm_args])          # the name the repository's tests pin instead of the specification's
+            verdict = None
+            for cand in tried:
+                res, note = fold_named(F, fn, cand)
+                if res is not None and len(res) == 1 and res[0] is not UNKNOWN and res[0] == want:
+                    verdict = "ok"
+                    break
+                if res is not None and len(res) == 1 and res[0] is not UNKNOWN:
+                    verdict = ("bad", res[0], cand)
+                elif verdict is None:
+                    verdict = ("unknown", note)
+            call = "%s(%s)" % (feel_name, ", ".join("%s: %s" % (names[i], show(a)) for i, a in enumerate(args)))
+            if verdict == "ok":
+                ok += 1
+            elif verdict[0] == "bad":
+                bad.append("%s = %s, the positional invocation is specified as %s" % (call, show(verdict[1]), show(want)))
+            else:
+                unknown.append("%s: %s" % (call, verdict[1]))
+        decided += ok + len(bad)
+        if bad:
+            rep.violation(rid, key, "the named invocation does not answer like the positional one: %s" % "; ".join(bad[:3]), "%s:%s" % (h["file"], h["line"]))
+        elif unknown:
+            rep.undecided(rid, key, "%d of %d cases fold to the positional answer, %d do not fold: %s" % (ok, ok + len(unknown), len(unknown), "; ".join(unknown[:2])))
+        else:
+            rep.ok(rid, key, "%d cases fold to the positional answer" % ok)
+    rep.floor(rid, "named invocations folded to a definite answer", decided, 60)
